@@ -332,6 +332,15 @@ def naiveBounds (lo hi : Option Rat) (w : Rat) : Rat :=
   let w := match lo with | some l => max w l | none => w
   match hi with | some h => min w h | none => w
 
+/-- `self.missing_output` of a built `PWLCalibration` layer after its constraint ran on the raw value `w`:
+with `missing_output_value = v` it is the CONSTANT `tf.constant(v, shape=[1, units])` (no weight, no
+constraint — `w` is irrelevant), otherwise the learned weight constrained by
+`NaiveBoundsConstraints(output_min, output_max)`. -/
+def missingOutputOf (fixed : Option Rat) (lo hi : Option Rat) (w : Rat) : Rat :=
+  match fixed with
+  | some v => v
+  | none => naiveBounds lo hi w
+
 /-! ### the property's vocabulary (decidable forms are used by the driver) -/
 
 /-- heights have the sign demanded by `monotonicity` -/
